@@ -47,6 +47,7 @@ def main():
             shutil.copy(os.path.join(awt, d), os.path.join(wt, d))
         import re
         demo_cmd = re.sub(r"[;&]+\s*git checkout (dnsrocks/)?go\.(mod|sum)( (dnsrocks/)?go\.sum)?\s*$", "", meta["demo_cmd"].strip())
+        demo_cmd = demo_cmd.replace(awt, wt)    # a demo_cmd that cd's into the agent's worktree must run in OURS
         cwd = os.path.join(wt, "dnsrocks")
         rc0, out0 = sh(demo_cmd, cwd)
         log["demo_without_patch"] = {"rc": rc0, "tail": out0[-600:]}
